@@ -163,7 +163,8 @@ class C10:
             "(also missing) parentheses in 10 statement contexts (initialiser, argument, implicit return, condition, index, "
             "range bounds, reassignment, print), both annotate settings; expected tree = mamba's own parse of the text "
             "(worker op `parse`) mapped by the same table, compared with the expression found at the same site of the "
-            "emitted module. (nest) nested tuples / lists of tuples / call arguments in 11 statement contexts (explicit return, "
+            "emitted module. (stress, fixed) ~1100 source expressions x 2 contexts: signed literals and names in every operand slot of every "
+            "operator, comparisons as operands of comparisons, judged like (e2e). (nest) nested tuples / lists of tuples / call arguments in 11 statement contexts (explicit return, "
             "implicit return, print, annotated definition, argument, returned call, if-expression branches, list elements, "
             "reassignment, method return) and builder conditions with a disjunction next to other conditions (dict / list / set); "
             "oracle: the values the emitted module prints are the values of the source tree (a lost pair of parentheses flattens a "
